@@ -23,9 +23,9 @@ TIER_OPTS = {
 }
 
 
-def run_float(fn, params, cfg_key, seed, rtol=1e-8):
+def run_float(fn, params, cfg_key, seed, rtol=1e-8, tier="quick"):
     """the harness on the real float code (no stubs, no patches)"""
-    B = FloatBackend(cfg_key, seed, rtol)
+    B = FloatBackend(cfg_key, seed, rtol, tier)
     err = None
     with warnings.catch_warnings():
         warnings.simplefilter("ignore")
@@ -73,13 +73,13 @@ def run_config(fn, params, cfg_key, seed=0, tier="quick", options=None, max_path
         "vacuity_ok": None,
     }
     # float reference first: real code on the witness inputs
-    FB, ferr = run_float(fn, params, cfg_key, seed)
+    FB, ferr = run_float(fn, params, cfg_key, seed, tier=tier)
     tries = 0
     while ferr is not None and "did not converge" in ferr and tries < 4:
         # the iterative rotation did not converge on this random witness: not a verdict, draw another witness
         tries += 1
         seed = seed + 7919
-        FB, ferr = run_float(fn, params, cfg_key, seed)
+        FB, ferr = run_float(fn, params, cfg_key, seed, tier=tier)
         res["notes"].append("witness redrawn: Varimax iteration did not converge on the first random input")
     float_status = {o.name: o for o in FB.obligations}
     queue = [[]]
@@ -167,7 +167,7 @@ def run_config(fn, params, cfg_key, seed=0, tier="quick", options=None, max_path
                     res["samples"].append({"obligation": ob.name, "verdict": ob.detail, "text": ob.sample})
                 continue
             fo = float_status.get(ob.name)
-            entry = {"obligation": ob.name, "status": ob.status, "detail": ob.detail, "path": ctx.describe_path()[:6], "witnessed": ctx.on_witness}
+            entry = {"obligation": ob.name, "status": ob.status, "detail": ob.detail, "path": ctx.describe_path()[:6], "witnessed": ctx.on_witness, "phash": _phash(ctx)}
             if ob.status == "failed-concrete":
                 # structural / exception obligations: decided concretely on this path. Replay = float run.
                 if fo is not None and fo.status in ("failed-concrete", "violated"):
@@ -198,6 +198,47 @@ def run_config(fn, params, cfg_key, seed=0, tier="quick", options=None, max_path
             res["open"].append(entry)
         # translation validation on the witness path: float lhs values == symbolic lhs values at the witness
         first = False
+    # ---- witness search for paths that were explored without a numeric witness and left obligations open
+    unw = [e for e in res["open"] if not e.get("witnessed")]
+    n_extra = opts.get("extra_witnesses", 6 if tier == "quick" else 16)
+    tried = 0
+    while unw and tried < n_extra and time.time() - t0 < budget * 1.2:
+        tried += 1
+        seed_s = seed + 104729 * tried
+        FBs, ferrs = run_float(fn, params, cfg_key, seed_s, tier=tier)
+        if ferrs is not None:
+            continue
+        fstat = {o.name: o for o in FBs.obligations}
+        ctx = Ctx(plan=[], seed=seed_s, options=opts)
+        B = SymBackend(ctx, cfg_key, seed_s, tier)
+        try:
+            with use_ctx(ctx), stubs.installed(), warnings.catch_warnings():
+                warnings.simplefilter("ignore")
+                fn(B, **params)
+                h = _phash(ctx)
+                targets = [e for e in unw if e["phash"] == h]
+                if not targets or not ctx.on_witness:
+                    continue
+                names = {e["obligation"] for e in targets}
+                B.pending_goals = [pg for pg in B.pending_goals if pg[0].name in names]
+                B.refuted = set(names)  # cheap mode: the point is the residual at this witness
+                B.discharge(rounds=1, maxdeg=opts["maxdeg"], timeout_ms=opts["timeout_ms"])
+        except (PathInfeasible, PathLimit, EngineError, Exception):
+            continue
+        res["notes"].append(f"extra witness seed {seed_s} reached a previously unwitnessed path")
+        for ob in B.obligations:
+            if ob.name not in names or ob.status == "proved":
+                continue
+            fo = fstat.get(ob.name)
+            bad_sym = ob.status == "failed-concrete" or (ob.resid is not None and ob.resid > 1e-7)
+            if bad_sym and fo is not None and fo.status in ("violated", "failed-concrete"):
+                res["violations"].append({"obligation": ob.name, "status": ob.status, "detail": ob.detail, "path": ctx.describe_path()[:6], "witnessed": True, "confirmed": True, "float_detail": fo.detail, "seed": seed_s})
+                res["open"] = [e for e in res["open"] if not (e["phash"] == h and e["obligation"] == ob.name)]
+        unw = [e for e in res["open"] if not e.get("witnessed")]
+    for e in res["open"]:
+        e.pop("phash", None)
+    for e in res["violations"]:
+        e.pop("phash", None)
     if ferr is not None and not any(v["obligation"] == "harness:unexpected-exception" for v in res["violations"]):
         if res["paths"] and not res["engine_errors"]:
             res["engine_errors"].append(f"float run raised {ferr} but no symbolic path did")
@@ -216,6 +257,15 @@ def run_config(fn, params, cfg_key, seed=0, tier="quick", options=None, max_path
     res["wall_s"] = round(time.time() - t0, 3)
     res["inputs"] = {k: _jsonable(v) for k, v in FB.inputs.items()}
     return res
+
+
+def _phash(ctx):
+    import hashlib
+
+    h = hashlib.sha1()
+    for rel, taken in ctx.path:
+        h.update(repr((rel.kind, rel.p.key(), taken)).encode())
+    return h.hexdigest()[:16]
 
 
 def _jsonable(x):
